@@ -425,3 +425,112 @@ Proof.
   - intros. now apply toks_term_nonempty.
   - destruct tms; [discriminate|congruence].
 Qed.
+
+(* ------------------------------------------------------------------ printed token lists are lexable *)
+
+Definition good (m : lmode) (ts : list token) : bool := forallb (tok_ok m) ts && sepfree ts.
+
+Lemma good_app m a b : good m a = true -> good m b = true -> head_safe b = true -> good m (a ++ b) = true.
+Proof.
+  unfold good. intros Ha Hb Hh. bsplit.
+  - rewrite forallb_app. now bsplit.
+  - now apply sepfree_app.
+Qed.
+
+Lemma good_cons m t b : tok_ok m t = true -> nonleader t = true -> good m b = true -> good m (t :: b) = true.
+Proof.
+  unfold good. intros Ht Hn Hb. bsplit.
+  - simpl. now bsplit.
+  - now rewrite sepfree_nonleader.
+Qed.
+
+Lemma good_join m y xs : tok_ok m (TSym y) = true -> safe_follower (TSym y) = true ->
+  forallb (good m) xs = true -> good m (join (TSym y) xs) = true.
+Proof.
+  intros Hy Hs H. unfold good. bsplit.
+  - rewrite forallb_join by assumption. rewrite forallb_forall in *. intros x Hx. specialize (H x Hx). unfold good in H. now bsplit.
+  - apply sepfree_join; auto. rewrite forallb_forall in *. intros x Hx. specialize (H x Hx). unfold good in H. now bsplit.
+Qed.
+
+Lemma forallb_map_impl {A B} (f : A -> bool) (g : B -> bool) (h : A -> B) l :
+  (forall a, f a = true -> g (h a) = true) -> forallb f l = true -> forallb g (map h l) = true.
+Proof.
+  intros Hi. induction l as [|a l IH]; simpl; auto. intros H. bsplit; auto.
+Qed.
+
+Lemma good_iterm t : wf_iterm t = true -> good MPlain (toks_iterm t) = true.
+Proof.
+  destruct t as [x|[] ds x]; simpl; intros H; bsplit; unfold good; simpl; repeat (rewrite ?H, ?H0); reflexivity.
+Qed.
+
+Lemma good_iexpr e : wf_iexpr e = true -> good MPlain (toks_iexpr e) = true.
+Proof.
+  unfold wf_iexpr. intros H. bsplit. apply good_join; try reflexivity.
+  eapply forallb_map_impl; [|eassumption]. apply good_iterm.
+Qed.
+
+Lemma good_ranks rs : wf_ranks rs = true -> good MPlain (toks_ranks rs) = true.
+Proof.
+  intros H. unfold toks_ranks. apply good_cons; try reflexivity. apply good_app; try reflexivity.
+  apply good_join; try reflexivity. eapply forallb_map_impl; [|eassumption]. apply good_iexpr.
+Qed.
+
+Lemma good_factor f : wf_factor f = true -> good MPlain (toks_factor f) = true.
+Proof.
+  destruct f as [x|x rs]; simpl; intros H.
+  - unfold good. simpl. now rewrite H.
+  - bsplit. change (TName x :: toks_ranks rs) with ([TName x] ++ toks_ranks rs). apply good_app; try reflexivity.
+    + unfold good. simpl. now rewrite H.
+    + now apply good_ranks.
+Qed.
+
+Lemma good_term t : wf_term t = true -> good MPlain (toks_term t) = true.
+Proof.
+  destruct t as [fs|fs sel]; simpl; intros H; bsplit.
+  - apply good_join; try reflexivity. eapply forallb_map_impl; [|eassumption]. apply good_factor.
+  - apply good_cons; try reflexivity. apply good_app; try reflexivity.
+    + apply good_join; try reflexivity. eapply forallb_map_impl; [|eassumption]. apply good_factor.
+    + unfold good. simpl. now rewrite H0.
+Qed.
+
+Lemma good_einsum e : wf_einsum e = true -> good MPlain (toks_einsum e) = true.
+Proof.
+  destruct e as [z rs tms]. unfold wf_einsum. simpl. intros H. bsplit.
+  change (toks_einsum (mkEinsum z rs tms)) with ([TName z] ++ toks_ranks rs ++ TSym SEq :: join (TSym SPlus) (map toks_term tms)).
+  apply good_app; try reflexivity.
+  - unfold good. simpl. now rewrite H.
+  - apply good_app; try reflexivity; [now apply good_ranks|].
+    apply good_cons; try reflexivity. apply good_join; try reflexivity.
+    eapply forallb_map_impl; [|eassumption]. apply good_term.
+Qed.
+
+(* ------------------------------------------------------------------ the two theorems, per grammar *)
+
+Section TopLevel.
+  Context {A : Type}.
+  Variables (m : lmode) (toks : A -> list token) (p : list token -> option A) (wf : A -> bool).
+  Hypothesis Hgood : forall a, wf a = true -> good m (toks a) = true.
+  Hypothesis Hcomplete : forall a, wf a = true -> p (toks a) = Some a.
+  Hypothesis Hsound : forall ts a, forallb (tok_ok m) ts = true -> p ts = Some a -> ts = toks a /\ wf a = true.
+
+  Lemma top_parse_print a ws : wf a = true -> blanks ws = true -> obind (lex m (render (toks a) ws)) p = Some a.
+  Proof.
+    intros Hwf Hb. pose proof (Hgood _ Hwf) as Hg. unfold good in Hg. bsplit.
+    rewrite lex_render by assumption. simpl. now apply Hcomplete.
+  Qed.
+
+  Lemma top_parse_sound s a : obind (lex m s) p = Some a ->
+    wf a = true /\ exists ws, blanks ws = true /\ List.length ws = S (List.length (toks a)) /\ s = render (toks a) ws.
+  Proof.
+    intros H. destruct (lex m s) as [ts|] eqn:El; [|discriminate]. simpl in H.
+    destruct (lex_sound _ _ _ El) as (ws & Hb & Hlen & E & Hok).
+    destruct (Hsound _ _ Hok H) as [-> Hwf]. split; auto. exists ws. auto.
+  Qed.
+End TopLevel.
+
+Theorem eq_parse_print e ws : wf_einsum e = true -> blanks ws = true -> parse_eq (print_eq e ws) = Some e.
+Proof. apply (top_parse_print MPlain toks_einsum p_einsum wf_einsum good_einsum p_einsum_complete). Qed.
+
+Theorem eq_parse_sound s e : parse_eq s = Some e ->
+  wf_einsum e = true /\ exists ws, blanks ws = true /\ List.length ws = S (List.length (toks_einsum e)) /\ s = print_eq e ws.
+Proof. apply (top_parse_sound MPlain toks_einsum p_einsum wf_einsum). exact p_einsum_sound. Qed.
